@@ -87,7 +87,7 @@ theorem WFrec.checked {R : Nat} {r : Rec} (h : WFrec R r) (hc : r.changed ≠ no
   · intro hn; exact absurd hn hc
 
 theorem WFrec.unfail {R : Nat} {r : Rec} (h : WFrec R r) :
-    WFrec R { r with isGenerated := false, failed := some 0 } := by
+    WFrec R { r with isGenerated := false, isOverride := false, failed := some 0 } := by
   obtain ⟨h1, h2, h3, h4⟩ := h
   refine ⟨h1, h2, ?_, h4⟩
   simp
